@@ -382,3 +382,13 @@ PROPERTY_META["C18"] = {"assumptions": ["OPENSSL digest contract: digest equal <
                                         "file system stub: a path has a stat tuple (dev, ino, size, mtime) that may change between two looks; equal tuple = unchanged file is the cache's own design assumption",
                                         "PEM/X509/SSL_CTX loaders are stubs that succeed or fail at the solver's choice; a PEM bundle is n good entries followed by a clean end or a damaged entry"],
                         "trusted_base": [], "bounds": "item strings of 1-2 characters, two paths, cache of <= 2 entries", "outside": "PEM parsing itself; real file-system update sequences (rename/symlink flips) beyond the stat-tuple abstraction; NOW/namespace file naming (get_file)"}
+
+# --------------------------------------------------------------------------
+# C09: how XCM configures OpenSSL (ghost configuration), consistency rules, inheritance
+# --------------------------------------------------------------------------
+CONF = {"VERIFY": (["C09"], "set_verify for all 2^4 (role, auth, check_crl, check_time) and any pre-set flags: mode and X509 flags exactly as the policy says"),
+        "HOSTNAME": (["C09"], "enable_hostname_validation: exact-match host flags (no wildcards), the host list handed to OpenSSL = the configured names; EINVAL without auth or names"),
+        "FINALIZE": (["C09", "C18"], "finalize_tls_conf over every combination of flags, designated items and explicit-set marks: exactly the inconsistent combinations are refused with EINVAL; defaults derived from environment/namespace once, now, only for undesignated items"),
+        "INHERIT": (["C09", "C11", "C18"], "inherit_tls_conf: all five policy switches, the expected names and the four credential items of the server socket are taken over by an accepted connection")}
+for op, (props, d) in CONF.items():
+    ob("tlsconf." + op.lower(), "btls/conf.c", ["-DOP_" + op], props, unwind=10, unwindset=["memset.0:1400", "ut_calloc.0:18", "ut_realloc.0:34"], desc=d)
